@@ -41,6 +41,16 @@ func tableOf(res runResult) (*Table, bool) {
 	return t, true
 }
 
+// the rows of a run with the null cells kept (a column that is null in every row still exists
+// for fillnull): what the Coq tables need
+func fullRows(res runResult) ([]CRow, bool) {
+	t, ok := tableOf(res)
+	if !ok {
+		return nil, false
+	}
+	return t.crowsFull(), true
+}
+
 type rewSpec struct {
 	Fam     string // class prefix = the command whose state is rewound
 	Up      string // the chain in front of the two-pass command
@@ -390,8 +400,9 @@ func runRewoundStream(cfg vhlib.Config, sum *vhlib.Summary, rng *vhlib.Rng, tabl
 							}
 							seen[k] = true
 							a, ok1 := f.cc.row(lt.crow(i))
-							b, ok2 := f.cc.rows(o.Rows)
-							if !ok1 || !ok2 {
+							ofull, ok3 := fullRows(o)
+							b, ok2 := f.cc.rows(ofull)
+							if !ok1 || !ok2 || !ok3 {
 								okAll = false
 								break
 							}
@@ -399,7 +410,9 @@ func runRewoundStream(cfg vhlib.Config, sum *vhlib.Summary, rng *vhlib.Rng, tabl
 						}
 						level = next
 					}
-					keptC, ok0 := f.cc.rows(kept.Rows)
+					keptFull, okk := fullRows(kept)
+					okAll = okAll && okk
+					keptC, ok0 := f.cc.rows(keptFull)
 					exp, ok := f.cc.rows(got.Rows)
 					if okAll && ok && ok0 {
 						f.checks = append(f.checks, fmt.Sprintf("chk_alias_rows %s %s %s %s", keptC, vhlib.CoqListNL(items), tp.Model(f.cc), exp))
